@@ -17,9 +17,10 @@ NOW = C.T0 + 5000
 URLS = ["ws://localhost:6969", "wss://relay.example/path"]
 RELAY_CLASS = {"exact": URLS[0], "exact2": URLS[1], "substring": "ws", "superstring": URLS[0] + "/evil", "foreign": "ws://evil.example",
                "prefix": "ws://localhost", "empty": ""}
-KEYS = ["A", "B"]
-ROLES = {"A": "w", "B": "r"}
+KEYS = ["A", "B", "C"]
+ROLES = {"A": "w", "B": "r", "C": ""}     # C: every role explicitly revoked
 ACTIONS = {"save": "w", "query": "rw"}
+ACTIONS_ANON = {"save": "aw", "query": "ar"}      # a relay open to anonymous clients: only a key whose roles were revoked is kept out
 CONNS = ["c1", "c2"]
 
 
@@ -157,6 +158,7 @@ def _ws_worker(payload):
 
     async def one(scn):
         descs = [E("pa%d" % i, "A", 1, 100 + i, [["t", "a"]]) for i in range(12)] + [E("pb%d" % i, "B", 1, 200 + i, [["t", "a"]]) for i in range(12)] \
+            + [E("pc%d" % i, "C", 1, 400 + i, [["t", "a"]]) for i in range(12)] \
             + [E("pl", "B", 10002, 300, [["r", "x"]])]
         uni = Universe(descs)
         with C.Scratch() as d:
@@ -180,7 +182,7 @@ def _ws_worker(payload):
                     return [(int(conn[1]) - 1, json.dumps(["AUTH", ev]), {"m": "AUTH", "p": p})]
                 return ("call", fn)
 
-            evn = {"A": 0, "B": 0}
+            evn = {k: 0 for k in KEYS}
             sidn = [0]
             sids_used = []
             for step in scn:
@@ -190,7 +192,7 @@ def _ws_worker(payload):
                     conn = int(step[1][1]) - 1
                     if step[2] == "save":
                         who = step[3]
-                        sym = ("pa%d" if who == "A" else "pb%d") % evn[who]
+                        sym = "p%s%d" % (who.lower(), evn[who])
                         evn[who] += 1
                         sched += [("msg", conn, {"m": "EVENT", "e": sym}), ("idle",)]
                     else:
@@ -201,66 +203,72 @@ def _ws_worker(payload):
                 log, info, errs = await relaydrv.run_connections(st, uni, 2, sched, sid_map)
             finally:
                 await storedrv.close_storage(st)
-        # interpret the log: per handled message, what was answered
-        tr = []
+        # interpret the log: one segment per Idle point (every scenario step is followed by exactly one), holding the pushes seen
+        # and what the handled message was answered with.  A step whose connection is gone has an empty segment.
+        segs = []
+        pushes = []
         cur = {}
-        skip = 2         # the two filterless REQs that start the senders
+        closed = {}
         for ln in log:
             if ln["a"] == "Send" and ln["f"]["t"] == "EVENT":
-                tr.append(("push", "c%d" % (ln["c"] + 1), ln["f"]["sid"]))
-            if ln["a"] == "Recv" and skip and ln["m"] == "REQ":
-                skip -= 1
-                cur.pop(ln["c"], None)
-                continue
+                pushes.append(("push", "c%d" % (ln["c"] + 1), ln["f"]["sid"]))
+            if ln["a"] == "WsClose":
+                closed.setdefault("c%d" % (ln["c"] + 1), (len(segs) - 2, ln["code"]))      # step index at which it happened
             if ln["a"] == "Recv":
-                c = ln["c"]
-                cur[c] = {"m": ln["m"], "frames": []}
-                cur[c]["abs"] = None
+                cur[ln["c"]] = {"m": ln["m"], "frames": []}
             elif ln["a"] == "Send" and ln["c"] in cur:
                 cur[ln["c"]]["frames"].append(ln["f"])
             elif ln["a"] == "Idle":
+                done = {}
                 for c, x in list(cur.items()):
                     conn = "c%d" % (c + 1)
                     notice = [f for f in x["frames"] if f["t"] == "NOTICE"]
                     if x["m"] == "RAW" or x["m"] == "AUTH":
-                        x["done"] = ("auth", conn, not notice, notice[0]["text"] if notice else "")
+                        done[conn] = ("auth", conn, not notice, notice[0]["text"] if notice else "")
                     elif x["m"] == "EVENT":
                         okf = [f for f in x["frames"] if f["t"] == "OK"]
-                        x["done"] = ("probe", conn, "save", bool(okf and okf[0]["ok"]), okf[0].get("reason", "") if okf else "no OK frame")
+                        done[conn] = ("probe", conn, "save", bool(okf and okf[0]["ok"]), okf[0].get("reason", "") if okf else "no OK frame")
                     elif x["m"] == "REQ":
                         eose = [f for f in x["frames"] if f["t"] == "EOSE"]
-                        x["done"] = ("probe", conn, "query", bool(eose) and not notice, notice[0]["text"] if notice else "")
-                    tr.append(x["done"])
+                        done[conn] = ("probe", conn, "query", bool(eose) and not notice, notice[0]["text"] if notice else "")
+                segs.append((pushes, done))
+                pushes = []
                 cur = {}
-        return tr, errs, sids_used
+        return segs[2:], errs, sids_used, closed        # the first two idle points belong to the preamble (open, filterless REQs)
 
     async def main():
         for scn in scenarios:
-            obs, errs, sids_used = await one(scn)
+            segs, errs, sids_used, closed = await one(scn)
             lines = []
-            k = 0
             qn = 0
-            for step in scn:
-                while k < len(obs) and obs[k][0] == "push":
-                    lines.append({"a": "Push", "c": obs[k][1], "sid": obs[k][2]})
-                    k += 1
-                if k >= len(obs):
-                    break
-                o = obs[k]
-                k += 1
+            for k, step in enumerate(scn):
+                pushes, done = segs[k] if k < len(segs) else ([], {})
+                o = done.get(step[1])
+                gone = step[1] in closed and closed[step[1]][0] <= k
+                if gone and closed[step[1]][0] == k:
+                    # the relay handled this frame by closing the connection (whatever it did to the session first is unobservable)
+                    lines.append({"a": "Closed", "c": step[1], "_code": closed[step[1]][1]})
                 if step[0] == "auth":
-                    lines.append({"a": "Auth", "c": step[1], "p": abstract(step[2]), "ok": bool(o[2]) if o[0] == "auth" else False,
-                                  "_note": o[-1], "_conc": step[2]})
+                    for pu in pushes:
+                        lines.append({"a": "Push", "c": pu[1], "sid": pu[2]})
+                    # (a connection the relay closed while handling the AUTH frame has no session any more)
+                    lines.append({"a": "Auth", "c": step[1], "p": abstract(step[2]),
+                                  "ok": bool(o[2]) if o and o[0] == "auth" and not gone else False,
+                                  "_note": o[-1] if o else "no answer (connection closed: %s)" % (closed.get(step[1]),), "_conc": step[2]})
                 else:
-                    ln = {"a": "Probe", "c": step[1], "action": step[2], "allowed": bool(o[3]) if o[0] == "probe" else False, "_note": o[-1]}
+                    ln = {"a": "Probe", "c": step[1], "action": step[2], "allowed": bool(o[3]) if o and o[0] == "probe" else False,
+                          "_note": o[-1] if o else "no answer (connection closed: %s)" % (closed.get(step[1]),)}
                     if step[2] == "query":
                         ln["sid"] = sids_used[qn] if qn < len(sids_used) else "s?"
                         qn += 1
-                    lines.append(ln)
-            while k < len(obs):
-                if obs[k][0] == "push":
-                    lines.append({"a": "Push", "c": obs[k][1], "sid": obs[k][2]})
-                k += 1
+                        # stored events of the answer arrive before EOSE, within the probe's own step
+                        lines.append(ln)
+                        for pu in pushes:
+                            lines.append({"a": "Push", "c": pu[1], "sid": pu[2]})
+                    else:
+                        lines.append(ln)
+                        for pu in pushes:
+                            lines.append({"a": "Push", "c": pu[1], "sid": pu[2]})
             out.append(lines)
         return out
 
@@ -299,9 +307,9 @@ class _Quiet:
         return lambda *a, **k: None
 
 
-def defs():
+def defs(actions=None):
     return {"TD_Conns": set(CONNS), "TD_Keys": set(KEYS), "TD_RolesOf": {k: set(v) for k, v in ROLES.items()}, "TD_DefaultRoles": {"a"},
-            "TD_ActionRoles": {k: set(v) for k, v in ACTIONS.items()}, "TD_Whitelist": {"A"}}
+            "TD_ActionRoles": {k: set(v) for k, v in (actions or ACTIONS).items()}, "TD_Whitelist": {"A"}}
 
 
 def run(prop, tier, seed, **kw):
@@ -335,6 +343,15 @@ def run(prop, tier, seed, **kw):
         for tr in res:
             traces.append(tr)
             meta.append(("start_client", p[0]))
+    anon_from = len(traces)
+    if prop == "C14":
+        # the same scenarios on a relay whose actions are open to the anonymous role
+        cfg_anon = {"authentication": dict(auth_cfg, actions=ACTIONS_ANON), "service_privatekey": C.SECRETS["S"]}
+        for p, res in zip(payloads, pool.map_in_workers("harness.checks.authfam", "_ws_worker", payloads, config=cfg_anon)):
+            for tr in res:
+                traces.append(tr)
+                meta.append(("start_client", p[0] + "/anonymous-allowed"))
+        anon_to = len(traces)
     if prop == "C14":
         for res in pool.map_in_workers("harness.checks.authfam", "_cando_worker", [0]):
             for tr in res:
@@ -352,7 +369,18 @@ def run(prop, tier, seed, **kw):
             for tr in res:
                 traces.append(tr)
                 meta.append(("output_validator", b))
-    verdicts, vstats = tracedata.validate("Auth_Trace", defs(), traces, batch=400)
+    if prop == "C14":
+        anon = traces[anon_from:anon_to]
+        rest = traces[:anon_from] + traces[anon_to:]
+        meta = meta[:anon_from] + meta[anon_to:] + meta[anon_from:anon_to]
+        traces = rest + anon
+        v1, vstats = tracedata.validate("Auth_Trace", defs(), rest, batch=400)
+        v2, vstats2 = tracedata.validate("Auth_Trace", defs(ACTIONS_ANON), anon, batch=400)
+        out.add_model(vstats2)
+        verdicts = dict(v1)
+        verdicts.update({len(rest) + k: v for k, v in v2.items()})
+    else:
+        verdicts, vstats = tracedata.validate("Auth_Trace", defs(), traces, batch=400)
     out.add_model(vstats)
     distinct = set()
     samples = []
